@@ -29,14 +29,14 @@ CHECKS = {
         engine="StoreCache",
         technique="TLA+ spec StoreCache (status algebra of the nine cache files, accept rule of every fast path) model-checked with TLC; TLC-enumerated fault/append/restart paths replayed on the real store with a differential oracle (caches as found vs removed) over every read capability under a watchdog",
         text="TLC proves Transparent for accept = complete, shows the counterexamples of the accept rules as implemented, and enumerates every reachable status vector of the nine cache files (delete / truncate / garbage / empty / rollback on any file, interleaved with appends, restarts and rebuilding reads); the harness replays each path on real threads (short, > 256 frames, > 10^4 frames, > 8 MiB) and evaluates replay, cut points, status, cursor status, selection status, plans, compiled context (tail / middle / first / stride-boundary anchors) and branch/handoff resolution twice; any difference on a vector the as-implemented model calls transparent, and any call that does not return within the watchdog, is a violation.",
-        note="Verdict = differential on the implementation itself (best-effort field inflight_job_id excluded); differences on vectors the model declares non-transparent are attributed to the recorded D14 findings by culprit file; exhaustive over status vectors reachable in MaxSteps fault/append steps.",
+        note="Verdict = differential on the implementation itself (best-effort field inflight_job_id excluded); differences on vectors the model declares non-transparent are attributed to the recorded D14 findings by culprit file; exhaustive over status vectors reachable in MaxSteps fault/append steps. Also: a long thread with more than 10^4 non-message frames between two messages and an unreadable messages+runs sidecar (full-sidecar window fallback).",
         ref="4 C04"),
     "C05": dict(
         engine="StoreSeq",
         category="model_checking",
         technique="TLA+ spec StoreSeq with Crash between any two steps (GenCrash) checked with TLC in the as-implemented and repaired variants; crash snapshots taken at every file-system hook point of real operations, restarted in place and compared with the model's prediction per crash class",
         text="TLC explores every crash point of the modelled append / create / lineage steps, restart and a further append, and predicts per crash class whether GapFree and AckedOnce survive; the harness copies data/ and <ws>/.rip at every file-system hook point (log, each sidecar and index incl. between body and newline, thread index) of 16+ real operations, restarts a fresh engine on each copy in place and requires: validated replay, acknowledged appends exactly once, correct numbering and success of further appends, and every read capability answering as with caches removed.",
-        note="A crash point is 'between two file-system calls of the process' (snapshot at a hook point); torn single writes / power loss are not modelled; five recorded findings (D1, D14a-d) are attributed only when the measured cache lag at the crash point matches their signature.",
+        note="A crash point is 'between two file-system calls of the process' (snapshot at a hook point); torn single writes / power loss are not modelled; five recorded findings (D1, D14a-d) are attributed only when the measured cache lag at the crash point matches their signature. Also: crash points inside a sidecar rebuild; a refused append after restart is never attributed to the recorded finding D1.",
         ref="4 C05"),
     "C06": dict(
         engine="Subscribe",
@@ -48,49 +48,49 @@ CHECKS = {
         engine="RunLoop",
         technique="TLA+ spec RunLoop (the agent loop folded over a provider script; exact thread frame sequence of a run) checked with TLC; one provider script per distinct predicted run played by a scripted provider against the real router; thread and session streams compared with the prediction",
         text="TLC proves Ordered over all provider scripts of the alphabet and prints one script per distinct predicted run (text, tool calls, malformed JSON, schema-invalid events, HTTP 500, connection reset mid-body, end without [DONE], empty body x tool choices x history modes); the scripted provider plays each against the real router and the run's thread frames must be exactly the predicted sequence (selection, compilation, one side-effects frame per executed lock-path tool, cursor iff completed with a response id, run_ended last and once), the session stream must start with its start frame at seq 0, end with exactly one end frame and be gap-free, run_ended must follow the run's session_ended in file order; 13 further scenarios cover envelopes, no provider, dead endpoint, compile failure, parallel runs and failing / succeeding compaction jobs (job ended at most once).",
-        note="Provider behaviour alphabet = six response outcomes x 3-4 call items; byte-level variety belongs to C15.",
+        note="Provider behaviour alphabet = six response outcomes x 3-4 call items; byte-level variety belongs to C15. Also: operations on the thread after a run has ended (cursor rotate, checkpoints, compaction jobs) must not add frames carrying the ended run's id.",
         ref="4 C07"),
     "C08": dict(
         engine="Threads",
         technique="TLA+ spec Threads!Compile (cut point, hierarchical checkpoint selection, bundle) model-checked with TLC (BundleSound); Compile printed for every anchor of every reachable thread and of scripted long threads; the real compile entry point replayed with warm caches, after restart and with caches removed and compared with the prediction",
         text="TLC proves BundleSound on every reachable thread and prints the reference bundle for every anchor message (bounded exploration with messages, run ends from two sessions, checkpoints, side effects; eight scripted threads crossing the 16-message limit, halving over five checkpoints, checkpoints created in non-ascending to_seq order, interleaved replies, 60 x 10 KB messages exceeding the 256 KiB tail window); the real compile entry point must return exactly that cut, decision and bundle (artifact read back: summary refs, messages oldest first, each with the reply of the last run that ended for it) with warm caches, after a restart and with every cache removed before each call; a full scripted-provider run must send exactly the bundle's items.",
-        note="Reply texts are written by the harness as session frames for the model's run_ended frames; the concurrent tail/head read race (D13) is not forced by gates.",
+        note="Reply texts are written by the harness as session frames for the model's run_ended frames; the concurrent tail/head read race (D13) is not forced by gates. Also: one store / one history / the same compile in five cache states (re-compacted cuts: the last checkpoint frame for a cut wins by id; 16-message windows crossing a seek-stride boundary); compile parked between and after its two reads while another writer appends.",
         ref="4 C08"),
     "C09": dict(
         engine="Threads",
         technique="TLA+ spec Threads (cut points, planner, executor, scheduler as operators over the frame sequence) model-checked with TLC; every (state, compaction request) transition replayed on the real store and compared with the prediction; gate-scheduled concurrent calls",
         text="TLC proves CutPointsAreStrideMessages and AutoIdempotent on every reachable state and generates, per state, the predicted answer and appended frames of every compaction request class; the real store must give the same answer and frames, every created checkpoint must reference a readable summary with matching coverage, a repeated call with an exhausted plan must append nothing, the same history must give the same summary text with caches present / removed / after restart, and interleaved concurrent calls must keep job brackets well-formed.",
-        note="Exhaustive within MaxFrames/MaxOps; summary text compared after replacing ids by positions; concurrency sampled by alternation patterns at every append.",
+        note="Exhaustive within MaxFrames/MaxOps; summary text compared after replacing ids by positions; concurrency sampled by alternation patterns at every append. Also: after everything is checkpointed, unreadable / missing cache files plus a restart must not change cut points, status, or make a repeated auto / schedule append anything.",
         ref="4 C09"),
     "C10": dict(
         engine="Threads",
         technique="TLA+ spec Threads (EffLineage: cut resolution for every selector class) model-checked with TLC (LineageSound); every (state, branch/handoff request) transition replayed on the real store and compared with the prediction",
         text="TLC proves LineageSound (cut within the parent, names the last message at or before it, parent untouched) on every reachable state and generates the predicted outcome of every selector class in every state; the real store must answer the same, add bytes only for the new thread (created@0, lineage@1) and a handoff's summary must be readable afterwards.",
-        note="Exhaustive within MaxFrames/MaxOps; artifact readability = blob file exists under .rip/artifacts/blobs.",
+        note="Exhaustive within MaxFrames/MaxOps; artifact readability = blob file exists under .rip/artifacts/blobs. Also: a handoff's summary must be a readable artifact; handoffs while the artifact store cannot be written must fail and record nothing.",
         ref="4 C10"),
     "C11": dict(
         engine="WorkspaceLock",
         technique="TLA+ specs ExecOrder (observable: executions, side-effects frames, run ends) and WorkspaceLock (mechanism; TLC checks its invariants, liveness and that it refines ExecOrder); every (holder, program counter) state TLC enumerates is forced on the real router by parking the holder at that hook point while 8 other actors run; the recorded hook traces are validated by TLC against ExecOrderTrace and (strict, lock owner inferred) WorkspaceLockTrace",
         text="TLC proves NoOverlap, LockDiscipline, OrderAgrees, SEOnce, SEBeforeRunEnd, ReadOnlyFree and termination of every actor on the mechanism specification (direct tool commands, a 3-call provider loop, checkpoint command, tasks, a task cancelled while queued, read-only tools), proves that it refines the observable specification, and finds the counterexamples of the two excluded designs; each state with one actor inside its critical section is forced on the real router (holder parked at ws.acquired / exec begin / exec end / just before the side-effects append / ws.releasing) while all other actors of the cast are started and run until nothing moves; TLC then checks every recorded trace event by event: no second mutating execution begins while one is open, each owed frame appears exactly once after its tool finished, in the order the executions began, before the run ends, listing the changed file; read-only actors must finish inside the hold window.",
-        note="Schedules are forced at hook points and perturbed by seeded delays, not enumerated at instruction level; PTY tasks not exercised; a rejected strict-mechanism trace is reported as conformance drift, only a false ExecOrder guard is a violation.",
+        note="Schedules are forced at hook points and perturbed by seeded delays, not enumerated at instruction level; PTY tasks not exercised; a rejected strict-mechanism trace is reported as conformance drift, only a false ExecOrder guard is a violation. Also: a bash tool call that hits its timeout must not go on changing the workspace.",
         ref="4 C11"),
     "C12": dict(
         engine="Patch",
         technique="TLA+ spec Patch (abstract file system, add/delete/update+move, forward-cursor hunks, undo) checked with TLC; every (initial file system, document) pair TLC enumerates is materialised and applied by the real Workspace::apply_patch and the apply_patch tool; full tree + bytes compared with the prediction",
         text="TLC checks AllOrNothing and StylePreserved on every (file system, document) pair of the alphabet (32 initial file systems x all 1-operation and 2-operation documents incl. hunks with missing / repeated / grown / shrunk / before-the-cursor context, moves onto existing files and onto themselves, nine malformed-document classes) and prints Apply for each; the real library call and the tool must succeed or fail as predicted, leave exactly the predicted bytes (or the untouched tree) and report exactly the named files.",
-        note="Three paths (one nested), three-line alphabet, files <= 3 lines; directories left behind by a rolled-back add are allowed; mixed line endings inside one file are outside the alphabet.",
+        note="Three paths (one nested), three-line alphabet, files <= 3 lines; directories left behind by a rolled-back add are allowed; mixed line endings inside one file are outside the alphabet. Also: three- and four-operation documents (a path removed, re-created, then a later operation fails) and context-only hunks (must be found; must move the cursor).",
         ref="4 C12"),
     "C13": dict(
         engine="PathGuard",
         technique="TLA+ spec PathGuard (path shapes x operations, guard Refused, GuardSound) checked with TLC; every (operation, shape) TLC enumerates is executed through the real router inside a sentinel tree with canaries, for two working directories and with/without active ignore files outside the root",
         text="TLC proves GuardSound (a path the guard accepts stays lexically inside the root) over all shapes up to the component bound and prints each (operation, shape) with Refused; each is run for read / write / ls / grep / apply_patch / checkpoint create (+ later rewind) / checkpoint rewind / shell cwd / task cwd through the real router (so the auto-checkpoint hook sees the raw argument), with the full sentinel tree hashed before and after: nothing outside changes, refused requests fail and change neither workspace nor checkpoint store, no canary content reaches frames or the store, ls/grep answers are independent of ignore files outside the root.",
-        note="'Nothing outside is read' is observed through canaries and active ignore files, not proved; symlinks already inside the workspace are out of scope; one recorded finding (D17).",
+        note="'Nothing outside is read' is observed through canaries and active ignore files, not proved; symlinks already inside the workspace are out of scope; one recorded finding (D17). Also: checkpoint-shaped directories planted inside and outside the root (a rewind id must never be taken for a path).",
         ref="4 C13"),
     "C14": dict(
         engine="Checkpoint",
         technique="TLA+ spec Checkpoint (workspace + checkpoint store; explicit and automatic checkpoints, tool and raw edits, rewinds in any order) model-checked with TLC (RewindExact, FailedRewindNoop, AutoCovers); one operation sequence per distinct state replayed on the real Workspace/ToolRunner and through the real router, workspace compared after every step",
         text="TLC proves RewindExact, FailedRewindNoop and AutoCovers in every reachable state of the bounded model and prints one operation sequence per distinct (workspace, store) state with the predicted workspace after each step; the harness executes every sequence on the real Workspace and ToolRunner (automatic checkpoints) and a sample through the real router and checkpoint hook, with the working directory equal to and different from the root (decoy files there), and requires the observed workspace to equal the prediction after every step, explicit creates / rewinds to succeed or fail as predicted, and every file-editing tool call to be preceded by an automatic checkpoint covering the files it changes.",
-        note="Three paths (one nested), contents v1..v3; direct mode uses a 20-line hook adapter, the router sample the real hook; operation sequences up to MaxOps.",
+        note="Three paths (one nested), contents v1..v3; direct mode uses a 20-line hook adapter, the router sample the real hook; operation sequences up to MaxOps. Also: rewinds that fail half-way (stored copy missing, directory turned into a file) must leave the workspace exactly as it was.",
         ref="4 C14"),
     "C15": dict(
         engine="Sse",
@@ -102,7 +102,7 @@ CHECKS = {
         engine="RunLoop",
         technique="TLA+ spec RunLoop (call collection, output-order drain, tool-choice enforcement, call budget, stateful / stateless follow-ups) model-checked with TLC (ExecutedOnce, BarredNeverRuns, Bounded, Ordered); one provider script per distinct predicted run replayed through the real router; request bodies, tool_started frames and tool side effects compared with Run(cfg, script)",
         text="TLC proves ExecutedOnce, BarredNeverRuns, Bounded and Ordered for every script (2-3 responses x up to 2 call items incl. duplicate call ids via repeated done events, reversed output order, streamed arguments, an unknown tool; 6 response outcomes; 5 tool choices; both history modes) and prints one script per distinct predicted run; the real run must execute exactly the predicted calls in order (the append-only file written by the write tool counts executions), answer exactly the predicted call ids in the very next request, never execute a barred tool, stop at 32 calls, send previous_response_id / an extending input, and never send a request with validation errors.",
-        note="The scripted provider records the request bodies actually sent; call alphabet of 3-4 items.",
+        note="The scripted provider records the request bodies actually sent; call alphabet of 3-4 items. Also: the 32-call budget when every call is barred by tool_choice; stateless follow-ups on a thread whose compiled context is more than the prompt.",
         ref="4 C16"),
     "C17": dict(
         engine="TaskLife",
